@@ -213,6 +213,12 @@ func (h *schedHarness) step() stepRes {
 		<-c.done
 		res.popped, res.popErr = c.resJob, c.resErr
 		c = h.next()
+		if res.popErr != nil && c.op == "size" {
+			// nothing to pop: the scheduler asks, still inside the critical section, whether the queue is honestly empty
+			c.release <- grel{}
+			<-c.done
+			c = h.next()
+		}
 		if c.op == "push" {
 			res.pushed = c.arg
 			c.release <- grel{}
@@ -285,6 +291,8 @@ func schedRun(args []string) int {
 
 	for s := 0; s < *nseq; s++ {
 		h := newSchedHarness(thr)
+		// application code commonly builds many jobs from one options value: the jobs must stay independent
+		optPool := map[[2]bool]*quartz.JobDetailOptions{}
 		abs := map[string]*absJob{}
 		T0 := quartz.NowNano()
 		ops = append(ops, fmt.Sprintf("sched new %d", thr.Nanoseconds()))
@@ -400,10 +408,16 @@ func schedRun(args []string) int {
 					dist["trigger"]["nil"]++
 				}
 				flags := ""
-				opts := quartz.NewDefaultJobDetailOptions()
-				opts.Suspended, opts.Replace = susp, repl
-				// retries are configured but the job succeeds: it must still run once per fire time
-				opts.MaxRetries, opts.RetryInterval = r.Intn(3), time.Millisecond
+				opts := optPool[[2]bool{susp, repl}]
+				if opts == nil || r.Intn(2) == 0 {
+					opts = quartz.NewDefaultJobDetailOptions()
+					opts.Suspended, opts.Replace = susp, repl
+					// retries are configured but the job succeeds: it must still run once per fire time
+					opts.MaxRetries, opts.RetryInterval = r.Intn(3), time.Millisecond
+					optPool[[2]bool{susp, repl}] = opts
+				} else {
+					dist["class"]["shared-options-value"]++
+				}
 				nm := n
 				if r.Intn(15) == 0 {
 					nm = ""
